@@ -47,7 +47,7 @@ func verifC06Ref(kind int, producer bool) (string, bool) {
 // The lockstep contract on a pipe.
 //
 //verif:use ipc pipe handler
-//verif:bound one stream call through serveOne/serveStream: producer, exchange or producer-with-header method; init handler returns a state (logging 0..1 message) ; 0..3 input batches with a cancel batch at any position or none; the first 2 (quick) / 3 (thorough) turns each have ANY of 8 outcomes (emit, log+emit, no emit, double emit, Finish, error, panic, emit+Finish), later turns emit (exchange) or finish (producer); header present or nil. Abstract IPC, ghost handler.
+//verif:bound one stream call through serveOne/serveStream: producer, exchange or producer-with-header method; init handler returns a state (logging 0..1 message) ; 0..3 input batches with a cancel batch (zero-row, or a data-shaped batch tagged vgi_rpc.cancel) at any position or none; the first 2 (quick) / 3 (thorough) turns each have ANY of 8 outcomes (emit, log+emit, no emit, double emit, Finish, error, panic, emit+Finish), later turns emit (exchange) or finish (producer); header present or nil. Abstract IPC, ghost handler.
 func verifH_C06_lockstep() {
 	verifResetIPC()
 	verifResetHandler()
@@ -83,6 +83,7 @@ func verifH_C06_lockstep() {
 	verifHeaderStream = &verifInStream{batches: []*verifBatch{verifNewBatch(verifDataSchema, 1, 999, nil, nil)}, schema: verifDataSchema, failAt: -1}
 	nTicks := verifChoice("ticks", 4)
 	cancelAt := verifChoice("cancel_at", nTicks+1) - 1 // -1: none
+	verifCancelWithRows = cancelAt >= 0 && verifNondetBool("cancel_batch_has_rows")
 	verifQueueRequest(1, 0, []string{MetaMethod, MetaRequestVersion, MetaRequestID}, []string{method, ProtocolVersion, "rid"})
 	verifQueueTicks(nTicks, cancelAt)
 	s := verifPipeServer()
